@@ -131,7 +131,10 @@ def gen_task(rng, kind, nmax=24, props=()):
         return {"kind": kind, "key": key, "n": n, "b": b, "ranges": ranges, "user": user,
                 "method": "grid" if rng.random() < 0.25 else "uniform",
                 "keys_as_dict": rng.random() < 0.8,
-                "keys_order": order}  # insertion order of the user's dict of PRNG keys (any order is legal)
+                "keys_order": order,  # insertion order of the user's dict of PRNG keys (any order is legal)
+                # insertion orders of the user's range / table dicts are inputs too: recorded as lists, because
+                # replay files are written with sorted keys (seed v15B: its violations did not replay without this)
+                "ranges_order": list(ranges), "user_order": [nm for nm in order if nm in user]}
     if kind == "obsmulti":
         b = rng.randint(1, 4)
         nets = []
@@ -301,6 +304,7 @@ def build_task(spec):
         for i, (nm, shp) in enumerate(sorted(spec["user"].items())):
             col = np.arange(spec["n"], dtype=dt) + C_PAR + 100 * i
             user[nm] = jnp.asarray(col if shp == "n" else col[:, None])
+        user = {nm: user[nm] for nm in spec.get("user_order", sorted(user)) if nm in user}
         names = sorted(set(spec["ranges"]) | set(spec["user"]))
         if spec.get("keys_as_dict", True):
             ks = jax.random.split(key, len(names))
@@ -311,7 +315,7 @@ def build_task(spec):
             keys = key
         return jinns.data.DataGeneratorParameter(
             keys, spec["n"], spec["b"],
-            param_ranges={a: tuple(v) for a, v in spec["ranges"].items()},
+            param_ranges={a: tuple(spec["ranges"][a]) for a in spec.get("ranges_order", sorted(spec["ranges"])) if a in spec["ranges"]},
             method=spec["method"], user_data=user)
     if k == "obsmulti":
         pins, vals, eqs = {}, {}, {}
@@ -536,9 +540,12 @@ class EpochModel:
     no interpretation of the ambiguous events is consistent with the property.
     """
 
-    def __init__(self, prop, task_kind, view):
+    def __init__(self, prop, task_kind, view, perm_only=False):
         self.prop = prop
         self.kind = task_kind
+        # perm_only: refinement-configured stores (live + reserved slots): only "the store stays a permutation of
+        # itself" and "the batch is made of stored rows" are checked, the epoch of the live part is C16/C17's
+        self.perm_only = perm_only
         self.name = view["name"].split(":")[0]
         self.n, self.b = view["n"], view["b"]
         self.div = self.n % self.b == 0
@@ -578,6 +585,12 @@ class EpochModel:
                 raise Violation(self.prop, "I2-batch-not-in-store", self._sig("batch-not-in-store"),
                                 {"stream": view["name"], "n": self.n, "b": self.b, "call": self.calls}, step)
         order_changed = not np.array_equal(store, self.store)
+        if self.perm_only:
+            if order_changed:
+                ctx.count("probe.rar_configured_store_reshuffled")
+                self.epochs += 1
+            self.store = store.copy()
+            return
         key_changed = not np.array_equal(view["key"], self.key)
         cur = view["cursor"]
         definite = order_changed or (cur is not None and cur == 0)
